@@ -56,7 +56,8 @@ DropEvents == <<EvCdrop(1), EvCdrop(0)>>
 Drop == DropWith(DropEvents)
 ChildPanic == PanicWith(DropEvents)
 
-Next == EnvNext \/ PollBegin \/ ScanStep \/ ChildAnswer \/ ChildPanic \/ Drop
+Repoll == cfg.fam = "wait_until" /\ RepollPanics(DropEvents)        \* assert!(!done) / Completed => panic
+Next == EnvNext \/ PollBegin \/ ScanStep \/ ChildAnswer \/ ChildPanic \/ Drop \/ Repoll
 NextLive == Next \/ \E c \in Ch : OwedWake(c)
 Spec == Init /\ [][Next]_vars
 LiveSpec == Init /\ [][NextLive]_vars
